@@ -28,6 +28,50 @@ PATCHES = {
 }
 
 
+# Third-party code patched for simulation binaries only (absolute paths in the module cache).
+# quic-go v0.37.4 drains its timer with a blocking receive after a failed Stop; that relies on
+# the pre-1.23 timer channels (asynctimerchan=1), which testing/synctest does not support. With
+# the current semantics Stop has already discarded the stale value and the receive blocks
+# forever. The patch makes the drain non-blocking, which is correct under both semantics.
+MODCACHE_PATCHES = {
+    "/root/go/pkg/mod/github.com/quic-go/quic-go@v0.37.4/internal/utils/timer.go": [
+        ("\tif !t.t.Stop() && !t.read {\n\t\t<-t.t.C\n\t}\n",
+         "\tif !t.t.Stop() && !t.read {\n\t\tselect {\n\t\tcase <-t.t.C:\n\t\tdefault:\n\t\t}\n\t}\n"),
+    ],
+}
+
+
+def patched_module_copies(scratch):
+    """Go refuses overlays beneath GOMODCACHE, so a patched third-party module is a writable copy
+    in the scratch directory plus a replace directive. Returns the replace lines for go.mod."""
+    import shutil, stat
+    lines = []
+    bymod = {}
+    for src, subs in MODCACHE_PATCHES.items():
+        moddir = src[:src.index("@")] + "@" + src[src.index("@") + 1:].split("/")[0]
+        bymod.setdefault(moddir, []).append((src, subs))
+    for moddir, files in bymod.items():
+        if not os.path.isdir(moddir):
+            continue  # not in the module cache: nothing that imports it can be built anyway
+        modpath = moddir[len("/root/go/pkg/mod/"):].split("@")[0]
+        dst = os.path.join(scratch, "mod-" + os.path.basename(modpath))
+        shutil.copytree(moddir, dst)
+        for root, dirs, fs in os.walk(dst):
+            for n in dirs + fs:
+                q = os.path.join(root, n)
+                os.chmod(q, os.stat(q).st_mode | stat.S_IWUSR)
+        for src, subs in files:
+            f = os.path.join(dst, os.path.relpath(src, moddir))
+            text = open(f).read()
+            for old, new in subs:
+                if text.count(old) != 1:
+                    raise RuntimeError("patch point not found exactly once in %s: %r" % (src, old))
+                text = text.replace(old, new)
+            open(f, "w").write(text)
+        lines.append("replace %s => ../%s" % (modpath, os.path.basename(dst)))
+    return lines
+
+
 def main(out):
     os.makedirs(out, exist_ok=True)
     here = os.path.dirname(os.path.abspath(__file__))
